@@ -311,6 +311,12 @@ impl Check for C04Check {
     fn level(&self) -> &'static str {
         "fault_enumeration"
     }
+    fn address_space_limit_mib(&self) -> Option<u64> {
+        // decoders of <= 64 KiB datagrams: an allocation that does not fit in 4 GiB of address
+        // space derives from a wire-controlled field; it must fail here as it would on a
+        // machine without over-commit, not pass silently
+        Some(4096)
+    }
     fn rule(&self) -> String {
         "scenario = one PWB message (valid v2 payload with k channels x s samples, or a deliberately invalid payload) cut into chunks of a seeded size (1..=65535; sizes giving 1..=64 chunks), at most two network faults from {drop i, duplicate i (identical / differing payload), foreign board, foreign chip, toggle end-of-message on i, resize non-final i, renumber i, shift the boundary between chunks i and i+1 by d bytes (concatenation unchanged)}, and a set of delivery orders: ALL n! orders for n<=6, otherwise identity, reversal, every rotation, every adjacent transposition and seeded shuffles. Every (chunk set, order) is one execution of the real PwbPacket::try_from(Vec<Chunk>) and PwbV2Packet::try_from(Vec<Chunk>). Oracles: I1 same outcome class for every order and equal packets on success; I2 success => packet equals the real slice decoder on the id-ordered concatenation and equals what the model sent; I3 Ok/Err equals the reference reassembler of the statement. Non-trivial = at least two orders executed on at least two chunks; distinct = distinct event-log hashes (chunk bytes, orders, outcome classes).".into()
     }
